@@ -45,6 +45,10 @@ type PScript struct {
 	Code  int    `json:"code"`
 	Det   int    `json:"det"`
 	Wait  bool   `json:"wait"`  // the client reads the first reply before it sends anything (bidi)
+	Gzip  bool   `json:"gzip"`  // the client (direct and through the front) compresses with gzip and so gets compressed replies
+	RSize int    `json:"rsize"` // >0: replies carry this many incompressible bytes (the gzip form is larger than the message)
+	QSize int    `json:"qsize"` // >0: client message QAt has exactly this encoded size (around the default 4 MiB receive limit)
+	QAt   int    `json:"qat"`
 	Mode  string `json:"mode"`  // batch | lockstep (bidi: send one, await its answer, ...; the backend echoes)
 	FailK int    `json:"failK"` // lockstep: the backend fails instead of answering message FailK (0 = never)
 }
@@ -86,6 +90,29 @@ func proxyService() ServiceSpec {
 	svc := testService()
 	svc.Pkg, svc.Name = "vp", "P"
 	return svc
+}
+
+// pReply is reply j of the script; pRequest client message i.
+func pReply(s PScript, j int) *dynamicpb.Message {
+	m := repMsg(s.ID, j, 3)
+	if s.RSize > 0 {
+		b := make([]byte, s.RSize)
+		x := uint64(s.ID)*0x9E3779B97F4A7C15 + uint64(j)*0xBF58476D1CE4E5B9 + 7
+		for i := range b {
+			x ^= x << 13
+			x ^= x >> 7
+			x ^= x << 17
+			b[i] = byte(x >> 24)
+		}
+		m.Set(repDesc().Fields().ByName("pad"), protoreflect.ValueOfBytes(b))
+	}
+	return m
+}
+func pRequest(s PScript, i int) *dynamicpb.Message {
+	if s.QSize > 0 && i == s.QAt {
+		return exactReq(s.ID, i, s.QSize, "proto")
+	}
+	return reqMsg(s.ID, i, 3)
 }
 
 func scriptStatus(s PScript) error {
@@ -149,7 +176,7 @@ func newPBackend() (*pbackend, error) {
 		if s.FailAt != "never" {
 			return nil, scriptStatus(s)
 		}
-		return repMsg(s.ID, 1, 3), nil
+		return pReply(s, 1), nil
 	}
 	st := func(full string, md protoreflect.MethodDescriptor, ss grpc.ServerStream) error {
 		pv, s := view(ss.Context())
@@ -168,7 +195,7 @@ func newPBackend() (*pbackend, error) {
 				if k == s.FailK {
 					return scriptStatus(s)
 				}
-				if err := ss.SendMsg(repMsg(s.ID, k, 3)); err != nil {
+				if err := ss.SendMsg(pReply(s, k)); err != nil {
 					return err
 				}
 			}
@@ -194,7 +221,7 @@ func newPBackend() (*pbackend, error) {
 			}
 		}
 		for j := 1; j <= s.ReplyJ; j++ {
-			if err := ss.SendMsg(repMsg(s.ID, j, 3)); err != nil {
+			if err := ss.SendMsg(pReply(s, j)); err != nil {
 				return err
 			}
 		}
@@ -234,7 +261,11 @@ func runCall(cc *grpc.ClientConn, s PScript, callID string) PView {
 			"grpc-tenant", "t1", "grpc-trace-bin", "\x01\x02")
 		name, _ := methodOf(s.Shape)
 		sd := &grpc.StreamDesc{ClientStreams: s.Shape == "cstream" || s.Shape == "bidi", ServerStreams: s.Shape == "sstream" || s.Shape == "bidi"}
-		cs, err := cc.NewStream(ctx, sd, "/vp.P/"+name)
+		var copts []grpc.CallOption
+		if s.Gzip {
+			copts = append(copts, grpc.UseCompressor("gzip"))
+		}
+		cs, err := cc.NewStream(ctx, sd, "/vp.P/"+name, copts...)
 		if err != nil {
 			pv.Err = "NewStream: " + err.Error()
 			pv.Code = int(status.Code(err))
@@ -257,7 +288,7 @@ func runCall(cc *grpc.ClientConn, s PScript, callID string) PView {
 				return false
 			}
 			var c, j int
-			if _, err := fmt.Sscanf(m.Get(repDesc().Fields().ByName("id")).String(), "h%d-r%d", &c, &j); err != nil || !proto.Equal(m, repMsg(s.ID, j, 3)) {
+			if _, err := fmt.Sscanf(m.Get(repDesc().Fields().ByName("id")).String(), "h%d-r%d", &c, &j); err != nil || !proto.Equal(m, pReply(s, j)) {
 				j = 0
 			}
 			pv.Replies = append(pv.Replies, j)
@@ -268,7 +299,7 @@ func runCall(cc *grpc.ClientConn, s PScript, callID string) PView {
 			more = readOne()
 		}
 		for i := 1; i <= s.N && more; i++ {
-			if err := cs.SendMsg(reqMsg(s.ID, i, 3)); err != nil {
+			if err := cs.SendMsg(pRequest(s, i)); err != nil {
 				break // the call has ended: the status comes from RecvMsg
 			}
 			if s.Mode == "lockstep" {
@@ -397,7 +428,7 @@ func (w *proxyWorld) run(s PScript) ProxyEv {
 		p := "p" + strconv.Itoa(s.ID)
 		ev.Proxied = merge(runCall(w.viaCC, s, p), p)
 		h := "h" + strconv.Itoa(s.ID)
-		if !s.Wait {
+		if !s.Wait && s.QSize == 0 { // (a 4 MiB protobuf message is larger than the limit as JSON: not comparable)
 			ev.HasHTTP = true
 			ev.HTTP = runHTTPCall(w.mux, s, h)
 		}
@@ -419,7 +450,7 @@ func runHTTPCall(mux *larking.Mux, s PScript, callID string) PView {
 	name, _ := methodOf(s.Shape)
 	var body bytes.Buffer
 	for i := 1; i <= s.N; i++ {
-		body.Write(marshalMsg("json", reqMsg(s.ID, i, 3)))
+		body.Write(marshalMsg("json", pRequest(s, i)))
 		body.WriteByte('\n')
 	}
 	req := httptest.NewRequest("POST", "http://verif.test/vp.P/"+name, bytes.NewReader(body.Bytes()))
@@ -433,7 +464,7 @@ func runHTTPCall(mux *larking.Mux, s PScript, callID string) PView {
 	req.Header.Set("Connection", "keep-alive")
 	req.Header.Set("Keep-Alive", "timeout=5")
 	req.Header.Set("Grpc-Tenant", "t1")
-	req.Header.Set("Grpc-Trace-Bin", base64.RawStdEncoding.EncodeToString([]byte("\x01\x02")))
+	req.Header.Set("Grpc-Trace-Bin", base64.StdEncoding.EncodeToString([]byte("\x01\x02"))) // padded, as most HTTP clients write it
 	w := httptest.NewRecorder()
 	done := make(chan struct{})
 	go func() {
@@ -481,7 +512,7 @@ func runHTTPCall(mux *larking.Mux, s PScript, callID string) PView {
 		j := 0
 		if err := protojson.Unmarshal(raw, m); err == nil {
 			var c int
-			if _, err := fmt.Sscanf(m.Get(repDesc().Fields().ByName("id")).String(), "h%d-r%d", &c, &j); err != nil || !proto.Equal(m, repMsg(s.ID, j, 3)) {
+			if _, err := fmt.Sscanf(m.Get(repDesc().Fields().ByName("id")).String(), "h%d-r%d", &c, &j); err != nil || !proto.Equal(m, pReply(s, j)) {
 				j = 0
 			}
 		}
